@@ -105,6 +105,11 @@ Definition owned {B} (t : nat) (lab : list (nat * B)) : list B :=
 Definition MergeOf {B} (ths : nat -> list B) (sigma : list B) : Prop :=
   exists lab : list (nat * B), map snd lab = sigma /\ forall t, owned t lab = ths t.
 
+(* the byte stream s is the concatenation of such a merge: every line intact,
+   none torn, interleaved, merged, duplicated or lost, per-thread order kept *)
+Definition StreamOk (ths : nat -> list bytes) (s : bytes) : Prop :=
+  exists sigma, MergeOf ths sigma /\ s = concat sigma.
+
 (* ------------------------------------------------------------------ *)
 (* 2. sink objects                                                      *)
 (* ------------------------------------------------------------------ *)
